@@ -13,22 +13,48 @@ from . import dx
 from .deriv import reaching_assignments
 
 EXPLANATION = (
-    "R19a: no hash()/id() inside any function used as a sort key; every iteration over a set (set(...), "
-    "set displays, .atoms(...), set operators) is followed to its consumers: membership/any/all/len/"
-    "sum/sorted/set/dict-keyed stores/commutative Add/Mul/same-origin zip are order-insensitive, "
-    "anything else must be a frozen, reasoned exception, otherwise it is reported. R19g: the canonical "
-    "sort key starts with space, spin, number and letter of the name before any tie-break. R19b (=D4): "
-    "wavefunctions, overlaps and norm factors are uncached and draw their summation indices from "
-    "get_generic_indices; cached derivation methods request named indices only for the caller-supplied "
-    "target strings; multiplicative accumulation of a method in a loop only for the uncached methods "
-    "(+ the frozen s_root case whose index argument advances). R19c: no literal equal to a TensorNames "
-    "default reaches a tensor constructor name or a comparison with .name. R19d: TensorNames is a "
-    "frozen, slotted singleton built once from the JSON file; no attribute store on it. R19e: index "
-    "registry ownership and pairing (R08c/R08d). R19f: values handed out by cached_member/"
-    "cached_property whose return expression is a mutable container are never mutated by a caller.")
+    "R19g: sort_idx_canonical is evaluated (sa.symex) for a sample of 63 indices (occ/virt/general names with and without "
+    "number, three spins); every pair with different (space, spin, number, letter) must be ordered by that tuple before the "
+    "tie-break is reached, and the evaluated key contains no hash()/id(). R19a(1): every call that passes a sort key (key= "
+    "keyword of any callee, positional arguments bound to a parameter `key` of a repository function) is resolved to the "
+    "function bodies the key may denote (lambdas, local bindings, nested/module/imported functions, partial-style wrappers); "
+    "the call-graph closure of those bodies over the repository must not reach hash()/id()/__hash__. R19a(2): order taint - "
+    "every ordered read of an unordered collection (set displays/comprehensions, set()/frozenset(), .atoms()/set algebra, "
+    "names/parameters/functions that evaluate to one, dicts filled per element of one) by a loop, comprehension, list()/"
+    "tuple()/join/unpacking/pop()/next(iter()) is followed through names, containers, derived sequences and nested loops to "
+    "its consumers: membership, any/all/len/sum/min/max/sorted/set/Counter, Add/Mul, set.add/update, keyed stores, commutative "
+    "accumulation, diagnostics and pop() of a set established to have one element end the taint; return/yield, indexing, "
+    "arguments of other functions, per-element effects, order-sensitive comparison are sinks and reported unless the site is a "
+    "frozen, reasoned exception keyed by function and origin vocabulary of the set. R19b: every derivation function "
+    "(ground state, intermediate states, secular matrix, properties, Operators.operator) is evaluated for small orders with a "
+    "reference model of the index registry (generic requests hand out fresh objects, named requests one object per name) and "
+    "with every call of an uncached wavefunction method (psi, overlap, norm_factor - must carry no caching decorator) as a "
+    "distinguishable instance; on every returning path (a) no product, also inside wicks(..), contains the same index-carrying "
+    "factor twice, a power of one, or one wavefunction instance in two factors (memoised overlaps, cached psi, repeated "
+    "cached factors with identical index strings), (b) named indices are requested only for the caller-supplied strings and "
+    "for names generated in the same evaluation, (c) all tensor indices of psi are generic indices of that very request. "
+    "R19c: provenance of string literals (through local bindings, f-strings, concatenation, defaults of parameters, module "
+    "constants): no literal that spells a TensorNames default (also t<n>[cc], p<n>, default + computed extension) reaches a "
+    "tensor constructor name, a comparison / membership / table look-up / prefix test of a tensor name (.name reads and what "
+    "is bound from them, tensor-name parameters found by a fixpoint over the call sites) or an argument bound to a "
+    "tensor-name parameter; functions that read the registry of intermediates are evaluated and every look-up key derived "
+    "from longname() must ask for default names. R19d: TensorNames evaluated: dataclass(frozen=True, slots=True), Singleton "
+    "metaclass, one module-level instance = _from_config() = TensorNames(**json), defaults() = {field.name: field.default}; no "
+    "attribute store / setattr on the instance (through any import alias) in the package. R19e: index registry ownership and "
+    "request histories (R08c/R08d of C08). R19f: alias flow from every use of a cached method/property whose result is a mutable "
+    "container (names, walrus, conditional expressions, reaching definitions) to in-place mutations (mutator methods, item/"
+    "attribute stores, augmented assignment, arguments of repository functions that mutate the bound parameter); cached "
+    "derivation methods return immutable sympy objects on every evaluated path.")
 ASSUMPTIONS = [
     "equality of text across histories needs executions and is not decided",
-    "set iteration over small ints is treated as seed independent (CPython int hashing)",
+    "set iteration over small ints is treated as seed independent (CPython int hashing); frozen set-order exceptions are human judgements",
+    "derivation skeletons are evaluated for bounded orders/spaces only (quick: orders <= 3, norm_factor/s_root <= 6; thorough adds order 4, "
+    "s_root 7, doubles blocks); wicks, simplify, operators and tensors are uninterpreted, indices follow the reference registry model",
+    "order taint does not follow values through calls of other repository functions (an argument is a sink) nor through "
+    "attributes of self; set-valued dict entries (d[k] being a set) are not typed as unordered",
+    "call-graph closure resolves attribute calls by method name over the whole package (over-approximation)",
+    "tensor-name typing: `.name` reads, names bound from them and derived tensor-name parameters; literals built by "
+    "str.join/replace or read from files are not tracked",
 ]
 
 CACHE_DECOS = ("cached_member", "cached_property")
@@ -37,7 +63,6 @@ MUTATORS = {"append", "extend", "update", "pop", "clear", "add", "remove", "inse
             "factor", "set_sym_tensors", "set_antisym_tensors", "set_target_idx", "rename_tensor", "diagonalize_fock",
             "block_diagonalize_fock", "expand_antisym_eri", "use_symbolic_denominators", "use_explicit_denominators",
             "expand_intermediates", "permute"}
-DEFAULT_NAMES = None
 
 
 # ====================================================================== R19a (1): sort keys
@@ -217,23 +242,24 @@ def r19a_keys(ctx):
     sites = _key_sites(ctx, cg)
     ctx.floor(rule, "calls that pass a sort key", len(sites), 20)
     n_fn = 0
+    by_seed = {}
     for call, k in sites:
         ref = fn_of(call)
-        roots = cg.functions_of_expr(k, call)
-        direct = isinstance(k, ast.Name) and k.id in SEED_CALLS and not cg._shadowed(k.id, call)
-        seeds, n = cg.reachable_seeds(roots)
-        n_fn += n
-        if direct:
+        if isinstance(k, ast.Name) and k.id in SEED_CALLS and not cg._shadowed(k.id, call):
             ctx.bad(rule, call, f"`{short(call, 70)}` sorts by {k.id}(): the order depends on the interpreter's hash seed / addresses",
                     fn=ref, key=f"key {k.id}")
             continue
+        seeds, n = cg.reachable_seeds(cg.functions_of_expr(k, call))
+        n_fn += n
         for s, chain in seeds:
-            ctx.bad(rule, s, f"`{U(s)}` is evaluated for the sort key of `{short(call, 60)}` (via {' -> '.join(chain)}): the order of the "
-                    "sorted elements (and with it the printed text and the term count) depends on PYTHONHASHSEED / object addresses",
-                    fn=fn_of(s), key=f"{U(s.func)} in key {chain[-1]}")
+            by_seed.setdefault(id(s), (s, chain, []))[2].append(call)
         if not seeds:
             ctx.ok(rule, k, f"sort key of `{call_name(call)}` and the {n} function(s) it reaches are free of hash()/id()", fn=ref,
-                   key=f"key site {ref} {call.lineno - getattr(enclosing(call, FuncNode), 'lineno', 0)}")
+                   key=f"key site {ref} {short(call, 60)}")
+    for s, chain, calls_ in by_seed.values():
+        ctx.bad(rule, s, f"`{U(s)}` is evaluated for the sort key of {len(calls_)} call(s), e.g. `{short(calls_[0], 60)}` (via "
+                f"{' -> '.join(chain)}): the order of tied elements (and with it the printed text and the term count) depends on "
+                "PYTHONHASHSEED / object addresses", fn=fn_of(s), key=f"{U(s.func)} in key {chain[-1]}")
     ctx.floor(rule, "function bodies reached from sort keys", n_fn, 20)
 
 
@@ -977,7 +1003,7 @@ class IndexModel:
                     return NotImplemented
                 objs = [self.fresh(space, spin) for _ in range(n)]
                 for o in objs:
-                    sx.effects.append(T("generic_request", o.attrs["name"]))
+                    sx.effects.append(T("generic_request", o.name))
                 ret[(space, spin)] = objs
             return ret
 
@@ -1054,33 +1080,35 @@ class DerivEval:
 
 
 def _scenarios(tier):
-    S = []
+    """(function, arguments) evaluated by R19b; ``thorough`` lists only what is evaluated in addition to ``quick``"""
     I1, I2, I3 = "k5c5", "l6d6", "k5l5c5d5"
-    top = 3 if tier == "quick" else 4
-    for o in range(0, top + 1):
+    Q, X = [], []
+    for o in range(0, 5):
+        S = Q if o <= 3 else X
         S.append((GS + ".energy", dict(order=o)))
         S.append((GS + ".overlap", dict(order=o)))
         S.append((GS + ".expectation_value", dict(order=o, n_particles=1)))
-    for o in range(0, 7 if tier == "quick" else 9):
-        S.append((GS + ".norm_factor", dict(order=o)))
-        S.append((IS + ".s_root", dict(order=o, block="ph,ph", indices=f"{I1},{I2}")))
-    for o in range(1, top + 1):
-        S.append((GS + ".psi", dict(order=o, braket="ket")))
-        S.append((GS + ".psi", dict(order=o, braket="bra")))
-        S.append((GS + ".mp_amplitude", dict(order=o, space="ph", indices=I1)))
-        S.append((GS + ".mp_amplitude", dict(order=o, space="pphh", indices=I3)))
-        S.append((GS + ".amplitude_residual", dict(order=o, space="pphh", indices=I3)))
-    for o in range(0, top + 1):
         for bk in ("bra", "ket"):
             S.append((IS + ".precursor", dict(order=o, space="ph", braket=bk, indices=I1)))
-            if o <= (1 if tier == "quick" else 2):
-                S.append((IS + ".precursor", dict(order=o, space="pphh", braket=bk, indices=I3)))
+            if o <= 2:
+                (Q if o <= 1 else X).append((IS + ".precursor", dict(order=o, space="pphh", braket=bk, indices=I3)))
             S.append((IS + ".intermediate_state", dict(order=o, space="ph", braket=bk, indices=I1)))
+            if o >= 1:
+                S.append((GS + ".psi", dict(order=o, braket=bk)))
         S.append((IS + ".overlap_precursor", dict(order=o, block="ph,ph", indices=f"{I1},{I2}")))
         S.append((IS + ".overlap_isr", dict(order=o, block="ph,ph", indices=f"{I1},{I2}")))
-    S.append((IS + ".amplitude_vector", dict(indices=I1, lr="right")))
-    S.append((IS + ".amplitude_vector", dict(indices=I3, lr="left")))
-    for o in range(0, 3):
+        if o >= 1:
+            S.append((GS + ".mp_amplitude", dict(order=o, space="ph", indices=I1)))
+            S.append((GS + ".mp_amplitude", dict(order=o, space="pphh", indices=I3)))
+            S.append((GS + ".amplitude_residual", dict(order=o, space="pphh", indices=I3)))
+    for o in range(0, 7):       # order 6 is the first with a product of three overlaps; the path count grows ~50x per order
+        Q.append((GS + ".norm_factor", dict(order=o)))
+    for o in range(0, 8):
+        (Q if o <= 6 else X).append((IS + ".s_root", dict(order=o, block="ph,ph", indices=f"{I1},{I2}")))
+    Q.append((IS + ".amplitude_vector", dict(indices=I1, lr="right")))
+    Q.append((IS + ".amplitude_vector", dict(indices=I3, lr="left")))
+    for o in range(0, 4):
+        S = Q if o <= 2 else X
         S.append((SM + ".isr_matrix_block", dict(order=o, block="ph,ph", indices=f"{I1},{I2}", subtract_gs=True)))
         S.append((SM + ".precursor_matrix_block", dict(order=o, block="ph,pphh", indices=f"{I1},l6m6d6e6", subtract_gs=True)))
         S.append((SM + ".mvp_block_order", dict(order=o, space="ph", block="ph,ph", indices=I1, subtract_gs=True)))
@@ -1094,13 +1122,17 @@ def _scenarios(tier):
         S.append((PR + ".trans_moment", dict(adc_order=o, n_create=None, n_annihilate=None, order=None, lr_isr="left",
                                             subtract_gs=True)))
         S.append((PR + ".operator", dict(order=o, n_create=1, n_annihilate=1, subtract_gs=True)))
-    S.append((OP + ".operator", dict(n_create=1, n_annihilate=1)))
-    S.append((OP + ".operator", dict(n_create=2, n_annihilate=2)))
-    return S
+    Q.append((OP + ".operator", dict(n_create=1, n_annihilate=1)))
+    Q.append((OP + ".operator", dict(n_create=2, n_annihilate=2)))
+    X.append((PR + ".expec_block_contribution", dict(order=1, block="ph,pphh", n_particles=1, subtract_gs=True)))
+    X.append((SM + ".isr_matrix_block", dict(order=1, block="pphh,ph", indices=f"{I3},{I2}", subtract_gs=False)))
+    return Q if tier == "quick" else X
 
 
 def _carries_indices(f):
     """A factor that stands for an expression with (contracted) indices: contains a call that is not pure arithmetic."""
+    if isinstance(f, T) and f.op in ("attr", "item"):
+        return True
     for t in subterms(f):
         if t.op == "fresh":
             return True
@@ -1113,7 +1145,7 @@ def _carries_indices(f):
 
 def _products(value):
     """Every product that occurs in an evaluated value (also inside the arguments of wicks etc.), fully distributed."""
-    v = strip(value, dx.TRANSPARENT_CALLS + ("NO", "Dagger"), dx.TRANSPARENT_MCALLS, dx.TRANSPARENT_ATTRS)
+    v = strip(value, dx.TRANSPARENT_CALLS, dx.TRANSPARENT_MCALLS, dx.TRANSPARENT_ATTRS)
     seen = set()
     for t in subterms(v):
         if t.op in ("mul", "pow") and t not in seen:
@@ -1142,9 +1174,8 @@ def _shared(fs):
     return out
 
 
-def r19b(ctx, tier=None):
+def r19b(ctx, tier="quick"):
     rule = "R19b"
-    tier = tier or ctx.tier
     # the wavefunctions / norm factors are requested afresh: no memoising decorator
     for ref in UNCACHED:
         fn = ctx.model.fn(ref)
@@ -1169,96 +1200,379 @@ def r19b(ctx, tier=None):
         for v in args.values():
             if isinstance(v, str) and v not in ("bra", "ket", "left", "right") and not set(v) <= set("ph,"):
                 supplied.update(_split_names(v))
-        shared, foreign, stale = [], [], []
+        shared, foreign, stale, mutable = [], [], [], []
         for o in rets:
             n_paths += 1
-            generic = {e.args[0] for e in o.effects if e.op == "generic_request"}
+            generic = {e.args[0] for e in o.effects if isinstance(e, T) and e.op == "generic_request"}
             for e in o.effects:
                 if e.op == "named_request" and e.args[0] not in supplied and e.args[0] not in generic:
                     foreign.append(e.args[0])
             for fs in _products(o.value):
                 n_prod += 1
                 shared.extend(_shared(fs))
-            if not is_cached(fn) and meth in ("psi",):
+            if meth == "psi":
                 # every index of a wavefunction comes from the generic pool of this very call
                 for t in subterms(o.value):
                     if t.op == "call" and t.args[0] in TENSOR_CTORS:
-                        for s in subterms([v for k, v in t.args[2] if k != "name"] + list(t.args[1][1:])):
-                            if s.op == "sym" and s.args[0] not in generic and not str(s.args[0]).startswith(("gs", "h", "$")):
+                        a = args_of(t)
+                        for s in subterms([v for k, v in a.items() if k not in ("name", 0, "bra_ket_sym")]):
+                            if s.op == "sym" and s.args[0] not in generic:
                                 stale.append(show(s))
+            if is_cached(fn):
+                vals = o.value if isinstance(o.value, tuple) else (o.value,)
+                for v in vals:
+                    if isinstance(v, (list, dict, set)) or (isinstance(v, T) and v.op == "call" and v.args[0] in MUTABLE_CTORS):
+                        mutable.append(show(v)[:120])
         key = f"{lab} {' '.join(str(v) for v in args.values())}"
         kind = shared[0][0] if shared else ""
         ctx.check(rule, fn, not shared, f"{what}: no product contains an index-carrying factor twice",
                   f"{what}: a product contains the same index-carrying object twice ({kind}): {show(shared[0][1])[:300] if shared else ''}"
                   " - both factors are one object with the same contracted indices", key=f"shared {key}")
-        if is_cached(fn) or meth == "psi":
+        if is_cached(fn):
+            ctx.check("R19f", fn, not mutable, f"{lab}: cached result is an immutable sympy object",
+                      f"{what} caches and returns the mutable container {mutable[:1]}: a caller that modifies it changes the result "
+                      "of every later request", key=f"{lab} immutable")
+        if True:
             ctx.check(rule, fn, not foreign, f"{what}: named indices are only requested for the caller-supplied strings / generated names",
                       f"{what} requests the literally named indices {sorted(set(foreign))}: every later call returns an expression over the "
                       "same index objects, which collide with these names in the caller's expression", key=f"named {key}")
         if meth == "psi":
             ctx.check(rule, fn, not stale, f"{what}: all tensor indices are drawn from get_generic_indices by this call",
                       f"{what}: tensor indices {sorted(set(stale))} are not generic indices of this request", key=f"psi generic {key}")
-    ctx.floor(rule, "evaluated paths of the derivation layer", n_paths, 300)
-    ctx.floor(rule, "products examined for shared index sources", n_prod, 1000)
+    ctx.floor(rule, "evaluated paths of the derivation layer", n_paths, 300 if tier == "quick" else 100)
+    ctx.floor(rule, "products examined for shared index sources", n_prod, 1000 if tier == "quick" else 300)
 
 
-# ---------------------------------------------------------------------- R19c / R19d
+# ====================================================================== R19c
+# Provenance of string literals: no literal that spells a default tensor name reaches a position where a tensor name
+# is expected (constructor name, comparison with / lookup by / prefix test of a tensor name, a tensor-name parameter).
+
+NAME_PARAMS = ("t_name", "t_string", "tensor_name")
+NAME_MODULES = ("tensor_names", "sympy_objects")      # here a parameter called `name` is a tensor name
+MAX_PATTERNS = 64
 
 
 def _defaults(ctx):
+    """field -> default of TensorNames, read from the class body by evaluation of the annotated assignments"""
     cls = ctx.model.cls("tensor_names:TensorNames")
     out = {}
     for n in cls.body:
-        if isinstance(n, ast.AnnAssign) and isinstance(n.value, ast.Constant):
-            out[U(n.target)] = n.value.value
-    if len(out) < 8:
+        if isinstance(n, ast.AnnAssign) and isinstance(n.target, ast.Name) and isinstance(n.value, ast.Constant) \
+                and isinstance(n.value.value, str):
+            out[n.target.id] = n.value.value
+    if len(out) < 8 or "gs_amplitude" not in out or "gs_density" not in out:
         raise AnalysisError("TensorNames defaults not found")
     return out
 
 
+class NameFlow:
+    def __init__(self, ctx):
+        self.ctx = ctx
+        self.cg = call_graph(ctx)
+        self.defaults = _defaults(ctx)
+        self.vals = set(self.defaults.values())
+        self.t, self.p = self.defaults["gs_amplitude"], self.defaults["gs_density"]
+        self._scopes = {}
+
+    def scope(self, node):
+        fn = node if isinstance(node, FuncNode) else enclosing(node, FuncNode)
+        if fn is None:
+            return None
+        if id(fn) not in self._scopes:
+            self._scopes[id(fn)] = _Scope(fn, self.cg.defs(fn))
+        return self._scopes[id(fn)]
+
+    # ---------------------------------------------------------------- literals
+    def default_like(self, s):
+        if s in self.vals:
+            return True
+        if s.startswith(self.t) and s != self.t:
+            rest = s[len(self.t):]
+            rest = rest[:-2] if rest.endswith("cc") else rest
+            if rest == "" or rest.isdigit():
+                return True
+        if s.startswith(self.p) and s[len(self.p):].isdigit():
+            return True
+        return False
+
+    def flagged(self, pat):
+        if all(isinstance(x, str) for x in pat):
+            return self.default_like("".join(pat))
+        head = pat[0] if pat and isinstance(pat[0], str) else ""
+        if not head:
+            return False
+        if all(x is None for x in pat[1:]) and (head in self.vals or head.rstrip("0123456789") in (self.t, self.p)):
+            return True     # default name followed by a computed extension (order, cc, ...)
+        return False
+
+    @staticmethod
+    def _cat(a, b):
+        out = []
+        for x in a:
+            for y in b:
+                z = list(x)
+                for part in y:
+                    if isinstance(part, str) and z and isinstance(z[-1], str):
+                        z[-1] += part
+                    elif part is None and z and z[-1] is None:
+                        pass
+                    else:
+                        z.append(part)
+                out.append(tuple(z))
+                if len(out) > MAX_PATTERNS:
+                    return out
+        return out
+
+    def lits(self, e, depth=5, seen=None):
+        """patterns of the strings an expression may evaluate to: tuples of literal parts and None (unknown)"""
+        seen = set() if seen is None else seen
+        unknown = [(None,)]
+        if e is None or depth < 0 or id(e) in seen:
+            return unknown
+        seen = seen | {id(e)}
+        if isinstance(e, ast.Constant):
+            return [(e.value,)] if isinstance(e.value, str) else unknown
+        if isinstance(e, ast.JoinedStr):
+            acc = [()]
+            for v in e.values:
+                if isinstance(v, ast.Constant):
+                    part = [(str(v.value),)]
+                elif isinstance(v, ast.FormattedValue) and v.format_spec is None and v.conversion == -1:
+                    part = self.lits(v.value, depth - 1, seen)
+                else:
+                    part = unknown
+                acc = self._cat(acc, part)
+            return acc
+        if isinstance(e, ast.BinOp) and isinstance(e.op, ast.Add):
+            return self._cat(self.lits(e.left, depth - 1, seen), self.lits(e.right, depth - 1, seen))
+        if isinstance(e, ast.BinOp) and isinstance(e.op, ast.Mod):
+            out = []
+            for pat in self.lits(e.left, depth - 1, seen):
+                if pat and isinstance(pat[0], str) and "%" in pat[0]:
+                    out.append((pat[0].split("%")[0], None))
+                else:
+                    out.append((None,))
+            return out
+        if isinstance(e, ast.IfExp):
+            return self.lits(e.body, depth - 1, seen) + self.lits(e.orelse, depth - 1, seen)
+        if isinstance(e, ast.BoolOp):
+            return [p for v in e.values for p in self.lits(v, depth - 1, seen)]
+        if isinstance(e, ast.NamedExpr):
+            return self.lits(e.value, depth - 1, seen)
+        if isinstance(e, ast.Call) and isinstance(e.func, ast.Attribute) and e.func.attr == "format":
+            out = []
+            for pat in self.lits(e.func.value, depth - 1, seen):
+                if pat and isinstance(pat[0], str) and "{" in pat[0]:
+                    out.append((pat[0].split("{")[0], None))
+                else:
+                    out.append((None,))
+            return out
+        if isinstance(e, ast.Call) and isinstance(e.func, ast.Name) and e.func.id == "str" and len(e.args) == 1:
+            return self.lits(e.args[0], depth - 1, seen) if isinstance(e.args[0], ast.Constant) and isinstance(e.args[0].value, str) else unknown
+        if isinstance(e, ast.Name):
+            sc = self.scope(e)
+            while sc is not None:
+                b = sc.defs.all_defs(e.id)
+                if b:
+                    out = []
+                    for kind, v in b:
+                        if kind == "assign" and v is not None:
+                            out.extend(self.lits(v, depth - 1, seen))
+                        elif kind == "param":
+                            out.extend(self._param_default(sc.fn, e.id, depth, seen))
+                        else:
+                            out.extend(unknown)
+                    return out[:MAX_PATTERNS]
+                sc = self.scope(sc.fn._parent) if getattr(sc.fn, "_parent", None) is not None else None
+            m = e._module if hasattr(e, "_module") else None
+            if m is not None:
+                for st in m.tree.body:
+                    if isinstance(st, ast.Assign) and any(isinstance(t, ast.Name) and t.id == e.id for t in st.targets):
+                        return self.lits(st.value, depth - 1, seen)
+                    if isinstance(st, ast.AnnAssign) and isinstance(st.target, ast.Name) and st.target.id == e.id and st.value is not None:
+                        return self.lits(st.value, depth - 1, seen)
+            return unknown
+        return unknown
+
+    def _param_default(self, fn, name, depth, seen):
+        a = fn.args
+        pos = a.posonlyargs + a.args
+        for p, d in zip(pos[len(pos) - len(a.defaults):], a.defaults):
+            if p.arg == name:
+                return self.lits(d, depth - 1, seen) + [(None,)]
+        for p, d in zip(a.kwonlyargs, a.kw_defaults):
+            if p.arg == name and d is not None:
+                return self.lits(d, depth - 1, seen) + [(None,)]
+        return [(None,)]
+
+    def elements(self, e, depth=3):
+        """expressions a membership / lookup collection is made of"""
+        if isinstance(e, (ast.List, ast.Tuple, ast.Set)):
+            return list(e.elts)
+        if isinstance(e, ast.Dict):
+            return [k for k in e.keys if k is not None]
+        if isinstance(e, ast.Call) and call_name(e) in ("set", "frozenset", "tuple", "list", "dict") and len(e.args) == 1:
+            return self.elements(e.args[0], depth - 1)
+        if isinstance(e, ast.Name) and depth > 0:
+            sc = self.scope(e)
+            if sc is not None and sc.values(e.id):
+                return [x for v in sc.values(e.id) for x in self.elements(v, depth - 1)]
+        return []
+
+    def bad_literals(self, e):
+        return sorted({"".join(x if isinstance(x, str) else "{..}" for x in pat) for pat in self.lits(e) if self.flagged(pat)})
+
+    # ---------------------------------------------------------------- tensor-name typed expressions
+    def is_name(self, e, depth=4, seen=None):
+        seen = set() if seen is None else seen
+        if e is None or depth < 0 or id(e) in seen:
+            return False
+        seen = seen | {id(e)}
+        if isinstance(e, ast.Attribute):
+            return e.attr == "name"
+        if isinstance(e, ast.NamedExpr):
+            return self.is_name(e.value, depth - 1, seen)
+        if isinstance(e, ast.Name):
+            sc = self.scope(e)
+            while sc is not None:
+                b = sc.defs.all_defs(e.id)
+                if b:
+                    for kind, v in b:
+                        if kind == "param" and (sc.fn, e.id) in self.tensor_params:
+                            return True
+                        if kind == "assign" and v is not None and self.is_name(v, depth - 1, seen):
+                            return True
+                    return False
+                sc = self.scope(sc.fn._parent) if getattr(sc.fn, "_parent", None) is not None else None
+        return False
+
+    # ---------------------------------------------------------------- tensor-name parameters (fixpoint)
+    def compute_tensor_params(self):
+        self.tensor_params = set()
+        fns = [fn for _, fn in self.ctx.model.all_functions()]
+        params = {id(fn): [a.arg for a in fn.args.posonlyargs + fn.args.args + fn.args.kwonlyargs] for fn in fns}
+        for fn in fns:
+            for p in params[id(fn)]:
+                if p in NAME_PARAMS or (p == "name" and fn._module.name in NAME_MODULES):
+                    self.tensor_params.add((fn, p))
+        changed = True
+        rounds = 0
+        while changed and rounds < 6:
+            changed = False
+            rounds += 1
+            for fn in fns:
+                ps = [p for p in params[id(fn)] if (fn, p) not in self.tensor_params and p not in ("self", "cls")]
+                if not ps:
+                    continue
+                for n in walk_fn(fn, nested=False):
+                    hit = None
+                    if isinstance(n, ast.Compare) and len(n.ops) == 1 and isinstance(n.ops[0], (ast.Eq, ast.NotEq)):
+                        l, r = n.left, n.comparators[0]
+                        for a, b in ((l, r), (r, l)):
+                            if isinstance(a, ast.Name) and a.id in ps and self.is_name(b):
+                                hit = a.id
+                    elif isinstance(n, ast.Call):
+                        for pname, arg in self._bound_args(n):
+                            if isinstance(arg, ast.Name) and arg.id in ps and pname is True:
+                                hit = arg.id
+                    if hit and (fn, hit) not in self.tensor_params:
+                        self.tensor_params.add((fn, hit))
+                        changed = True
+
+    def _bound_args(self, call):
+        """(True, argument expression) for every argument that is bound to a tensor-name position of the callee"""
+        nm = call_name(call)
+        out = []
+        if nm in TENSOR_CTORS:
+            a = kwarg(call, "name", 0)
+            if a is not None:
+                out.append((True, a))
+            return out
+        cands = self.cg.functions_of_expr(call.func, call) if isinstance(call.func, ast.Name) else list(self.cg.by_short.get(nm, []))
+        for f in cands:
+            if isinstance(f, ast.Lambda):
+                continue
+            ps = [a.arg for a in f.args.posonlyargs + f.args.args]
+            skip = 1 if ps and ps[0] in ("self", "cls") and isinstance(call.func, ast.Attribute) else 0
+            for k, a in enumerate(call.args):
+                if isinstance(a, ast.Starred):
+                    break
+                if k + skip < len(ps) and (f, ps[k + skip]) in self.tensor_params:
+                    out.append((True, a))
+            for kw in call.keywords:
+                if kw.arg is not None and (f, kw.arg) in self.tensor_params:
+                    out.append((True, kw.value))
+        return out
+
+
 def r19c(ctx):
     rule = "R19c"
-    defaults = _defaults(ctx)
-    vals = set(defaults.values())
-    n = 0
+    nf = NameFlow(ctx)
+    nf.tensor_params = set()
+    nf.compute_tensor_params()
+    n_ctor = n_cmp = n_arg = 0
     for mname, m in ctx.model.modules.items():
         ctx.model.used_modules.add(mname)
         if mname == "tensor_names":
             continue
         for node in ast.walk(m.tree):
-            if isinstance(node, ast.Call) and isinstance(node.func, ast.Name) and node.func.id in c18_ctors() and node.args:
-                n += 1
-                a0 = node.args[0]
-                lit = a0.value if isinstance(a0, ast.Constant) and isinstance(a0.value, str) else None
-                if isinstance(a0, ast.JoinedStr) and a0.values and isinstance(a0.values[0], ast.Constant):
-                    lit = a0.values[0].value.rstrip("0123456789") or None
-                ctx.check(rule, node, not (lit in vals), "tensor name not a hard-coded default",
-                          f"`{short(node, 70)}` hard-codes the default name '{lit}' instead of tensor_names.*; with another "
-                          "configuration the tensor is no longer recognised", key=f"ctor literal {lit}")
-            if isinstance(node, ast.Compare) and len(node.ops) == 1 and isinstance(node.ops[0], (ast.Eq, ast.NotEq, ast.In, ast.NotIn)):
-                sides = [node.left] + node.comparators
-                names = [s for s in sides if (isinstance(s, ast.Attribute) and s.attr == "name") or (isinstance(s, ast.Name) and s.id in ("name", "t_name"))]
-                lits = []
-                for s in sides:
-                    if isinstance(s, ast.Constant) and isinstance(s.value, str):
-                        lits.append(s.value)
-                    elif isinstance(s, (ast.List, ast.Tuple, ast.Set)):
-                        lits += [e.value for e in s.elts if isinstance(e, ast.Constant) and isinstance(e.value, str)]
-                if names and lits:
-                    n += 1
-                    bad = [x for x in lits if x in vals and x not in ("a",)]
-                    ctx.check(rule, node, not bad, "name comparison not against a hard-coded default",
-                              f"`{U(node)}` compares a tensor name with the hard-coded default {bad}", key=f"cmp literal {bad}")
-    ctx.floor(rule, "constructor/comparison sites examined", n, 40)
-    # positive fixture
-    fix = ast.parse("x = AntiSymmetricTensor('V', u, l)")
-    c = fix.body[0].value
-    if not (isinstance(c.args[0], ast.Constant) and c.args[0].value in vals):
-        raise AnalysisError("R19c fixture")
-
-
-def c18_ctors():
-    return ("AntiSymmetricTensor", "SymmetricTensor", "Amplitude", "NonSymmetricTensor")
+            if isinstance(node, ast.Call):
+                nm = call_name(node)
+                if nm in TENSOR_CTORS:
+                    a0 = kwarg(node, "name", 0)
+                    if a0 is not None:
+                        n_ctor += 1
+                        bad = nf.bad_literals(a0)
+                        ctx.check(rule, node, not bad, "tensor name not a hard-coded default",
+                                  f"`{short(node, 70)}` is built with the hard-coded default name {bad} instead of tensor_names.*; with "
+                                  "another configuration the tensor is no longer recognised", key=f"ctor literal {bad}")
+                elif isinstance(node.func, ast.Attribute) and nm in ("startswith", "endswith", "removeprefix", "removesuffix") \
+                        and node.args and nf.is_name(node.func.value):
+                    n_cmp += 1
+                    bad = [b for a in (nf.elements(node.args[0]) or [node.args[0]]) for b in nf.bad_literals(a)]
+                    ctx.check(rule, node, not bad, "prefix test of a tensor name not against a hard-coded default",
+                              f"`{short(node, 70)}` tests a tensor name against the hard-coded default {bad}", key=f"prefix literal {bad}")
+                else:
+                    for _, a in nf._bound_args(node):
+                        n_arg += 1
+                        bad = nf.bad_literals(a)
+                        ctx.check(rule, node, not bad, "tensor-name argument not a hard-coded default",
+                                  f"`{short(node, 70)}` passes the hard-coded default name {bad} where a tensor name is expected",
+                                  key=f"arg literal {bad}")
+            elif isinstance(node, ast.Compare):
+                sides = [node.left] + list(node.comparators)
+                for op, l, r in zip(node.ops, sides, sides[1:]):
+                    if isinstance(op, (ast.Eq, ast.NotEq)):
+                        pairs = [(l, [r]), (r, [l])]
+                    elif isinstance(op, (ast.In, ast.NotIn)):
+                        pairs = [(l, nf.elements(r))]
+                    else:
+                        continue
+                    for nm_side, others in pairs:
+                        if not others or not nf.is_name(nm_side):
+                            continue
+                        n_cmp += 1
+                        bad = [b for o in others for b in nf.bad_literals(o)]
+                        ctx.check(rule, node, not bad, "name comparison not against a hard-coded default",
+                                  f"`{short(node, 80)}` compares a tensor name with the hard-coded default {bad}", key=f"cmp literal {bad}")
+            elif isinstance(node, ast.Subscript) and isinstance(node.ctx, ast.Load) and nf.is_name(node.slice):
+                keys = nf.elements(node.value)
+                if keys:
+                    n_cmp += 1
+                    bad = [b for o in keys for b in nf.bad_literals(o)]
+                    ctx.check(rule, node, not bad, "table keyed by tensor names has no hard-coded default key",
+                              f"`{short(node, 80)}` looks a tensor name up in a table with the hard-coded default key(s) {bad}",
+                              key=f"table literal {bad}")
+            elif isinstance(node, ast.match_case) if hasattr(ast, "match_case") else False:
+                pass
+    ctx.floor(rule, "tensor constructor sites examined", n_ctor, 40)
+    ctx.floor(rule, "comparisons / look-ups of tensor names examined", n_cmp, 10)
+    ctx.floor(rule, "arguments bound to tensor-name parameters examined", n_arg, 5)
+    # the decision procedure itself: positive fixtures
+    for s, want in (("V", True), ("t", True), ("t2", True), ("t1cc", True), ("p0", True), ("t2eri", False), ("t2sq", False),
+                    ("u", False), ("Zero", False)):
+        if nf.default_like(s) is not want:
+            raise AnalysisError(f"R19c fixture: default_like({s!r}) != {want}")
 
 
 # ====================================================================== R19c (registry look-ups) / R19d
@@ -1407,80 +1721,208 @@ def r19d(ctx):
         ctx.ok(rule, None, "no attribute store on tensor_names in the package", fn="package", key="no store")
 
 
-# ---------------------------------------------------------------------- R19f
+# ====================================================================== R19f
+# Objects handed out by a cache are shared by all later callers: alias flow from every use of a cached method/property
+# with a mutable result to in-place mutations (mutator methods, item/attribute stores, augmented assignment, passing to
+# a repository function that mutates the corresponding parameter).
+
+MUTABLE_CTORS = {"Expr", "LazyTermMap", "dict", "list", "set", "defaultdict", "OrderedDict", "Counter", "deque", "bytearray"}
 
 
-def _mutable_return(fn):
-    for r in common.returns_of(fn):
-        v = r.value
-        if isinstance(v, (ast.Dict, ast.List, ast.Set, ast.DictComp, ast.ListComp, ast.SetComp)):
+class Aliases:
+    def __init__(self, ctx):
+        self.ctx = ctx
+        self.cg = call_graph(ctx)
+        self._scopes = {}
+        self._mut = {}
+        self._param_mut = {}
+
+    def scope(self, fn):
+        if id(fn) not in self._scopes:
+            self._scopes[id(fn)] = _Scope(fn, self.cg.defs(fn))
+        return self._scopes[id(fn)]
+
+    def mutable_expr(self, e, sc, depth=4, seen=None):
+        """the expression may evaluate to a mutable container built by this function"""
+        seen = set() if seen is None else seen
+        if e is None or depth < 0 or id(e) in seen:
+            return False
+        seen.add(id(e))
+        if isinstance(e, (ast.Dict, ast.List, ast.Set, ast.DictComp, ast.ListComp, ast.SetComp)):
             return True
-        if isinstance(v, ast.Call) and call_name(v) in ("Expr", "LazyTermMap", "dict", "list", "set", "defaultdict"):
-            return True
-        if isinstance(v, ast.Name):
-            for a in common.assigns_to(fn, v.id):
-                val = getattr(a, "value", None)
-                if isinstance(val, (ast.Dict, ast.List, ast.Set, ast.DictComp, ast.ListComp, ast.SetComp)):
-                    return True
-                if isinstance(val, ast.Call) and call_name(val) in ("Expr", "LazyTermMap", "dict", "list", "set", "defaultdict"):
-                    return True
-    return False
+        if isinstance(e, ast.Call):
+            if call_name(e) in MUTABLE_CTORS:
+                return True
+            if isinstance(e.func, ast.Attribute) and e.func.attr == "copy":
+                return self.mutable_expr(e.func.value, sc, depth - 1, seen)
+            return False
+        if isinstance(e, ast.IfExp):
+            return self.mutable_expr(e.body, sc, depth - 1, seen) or self.mutable_expr(e.orelse, sc, depth - 1, seen)
+        if isinstance(e, ast.NamedExpr):
+            return self.mutable_expr(e.value, sc, depth - 1, seen)
+        if isinstance(e, ast.Name):
+            return any(self.mutable_expr(v, sc, depth - 1, seen) for v in sc.values(e.id))
+        return False
+
+    def mutable_result(self, fn):
+        if id(fn) not in self._mut:
+            sc = self.scope(fn)
+            self._mut[id(fn)] = any(self.mutable_expr(r.value, sc) for r in walk_fn(fn, nested=False)
+                                    if isinstance(r, ast.Return) and r.value is not None)
+        return self._mut[id(fn)]
+
+    # -------------------------------------------------------------- mutation sites
+    @staticmethod
+    def _root(e):
+        while isinstance(e, (ast.Subscript,)):
+            e = e.value
+        return e
+
+    def mutations(self, fn):
+        """(expression that is mutated in place, node, description) for every in-place mutation in ``fn``"""
+        out = []
+        for n in walk_fn(fn, nested=True):
+            if isinstance(n, ast.Call) and isinstance(n.func, ast.Attribute) and n.func.attr in MUTATORS:
+                out.append((n.func.value, n, f".{n.func.attr}()"))
+            elif isinstance(n, (ast.Assign, ast.AugAssign, ast.AnnAssign, ast.Delete)):
+                tg = n.targets if isinstance(n, (ast.Assign, ast.Delete)) else [n.target]
+                for t in tg:
+                    for x in ast.walk(t):
+                        if isinstance(x, ast.Subscript) and isinstance(x.ctx, (ast.Store, ast.Del)):
+                            out.append((x.value, n, "item store"))
+                        elif isinstance(x, ast.Attribute) and isinstance(x.ctx, (ast.Store, ast.Del)) and \
+                                not (isinstance(x.value, ast.Name) and x.value.id in ("self", "cls")):
+                            out.append((x.value, n, f"store of .{x.attr}"))
+                if isinstance(n, ast.AugAssign) and isinstance(n.target, ast.Name):
+                    out.append((n.target, n, "augmented assignment"))
+            elif isinstance(n, ast.Call):
+                for f, pname, arg in self._bound(n):
+                    if self.param_mutated(f, pname):
+                        out.append((arg, n, f"passed to {f.name}(), which mutates `{pname}`"))
+        return out
+
+    def _bound(self, call):
+        nm = call_name(call)
+        cands = self.cg.functions_of_expr(call.func, call) if isinstance(call.func, ast.Name) else list(self.cg.by_short.get(nm, []))
+        for f in cands:
+            if isinstance(f, ast.Lambda):
+                continue
+            ps = [a.arg for a in f.args.posonlyargs + f.args.args]
+            skip = 1 if ps and ps[0] in ("self", "cls") and isinstance(call.func, ast.Attribute) else 0
+            for k, a in enumerate(call.args):
+                if isinstance(a, ast.Starred):
+                    break
+                if k + skip < len(ps):
+                    yield f, ps[k + skip], a
+            for kw in call.keywords:
+                if kw.arg is not None and kw.arg in ps + [a.arg for a in f.args.kwonlyargs]:
+                    yield f, kw.arg, kw.value
+
+    def param_mutated(self, fn, pname, depth=2):
+        key = (id(fn), pname)
+        if key in self._param_mut:
+            return self._param_mut[key]
+        self._param_mut[key] = False
+        if depth <= 0:
+            return False
+        sc = self.scope(fn)
+        res = False
+        for target, node, how in self._direct_mutations(fn):
+            r = self._root(target)
+            if isinstance(r, ast.Name) and r.id == pname and not sc.values(pname) and how != "augmented assignment":
+                res = True
+                break
+        self._param_mut[key] = res
+        return res
+
+    def _direct_mutations(self, fn):
+        out = []
+        for n in walk_fn(fn, nested=False):
+            if isinstance(n, ast.Call) and isinstance(n.func, ast.Attribute) and n.func.attr in MUTATORS:
+                out.append((n.func.value, n, f".{n.func.attr}()"))
+            elif isinstance(n, (ast.Assign, ast.AugAssign, ast.Delete)):
+                tg = n.targets if isinstance(n, (ast.Assign, ast.Delete)) else [n.target]
+                for t in tg:
+                    for x in ast.walk(t):
+                        if isinstance(x, ast.Subscript) and isinstance(x.ctx, (ast.Store, ast.Del)):
+                            out.append((x.value, n, "item store"))
+        return out
+
+    # -------------------------------------------------------------- aliases
+    def is_alias(self, e, sc, cached_call, cached_prop, at_stmt, depth=4):
+        """``e`` evaluated at ``at_stmt`` may be the very object handed out by a cache: name of the cached callable or None"""
+        if depth < 0 or e is None:
+            return None
+        if isinstance(e, ast.Call) and isinstance(e.func, ast.Attribute) and e.func.attr in cached_call:
+            return e.func.attr
+        if isinstance(e, ast.Attribute) and e.attr in cached_prop and isinstance(e.ctx, ast.Load):
+            return e.attr
+        if isinstance(e, ast.NamedExpr):
+            return self.is_alias(e.value, sc, cached_call, cached_prop, at_stmt, depth - 1)
+        if isinstance(e, ast.IfExp):
+            return self.is_alias(e.body, sc, cached_call, cached_prop, at_stmt, depth - 1) or \
+                self.is_alias(e.orelse, sc, cached_call, cached_prop, at_stmt, depth - 1)
+        if isinstance(e, ast.Name):
+            if e.id in sc.params and not sc.values(e.id):
+                return None
+            live = reaching_assignments(sc.fn, e.id, at_stmt) if at_stmt is not None else []
+            vals = []
+            for a in live:
+                for t in a.targets:
+                    if isinstance(t, ast.Name) and t.id == e.id:
+                        vals.append((a.value, a))
+            # walrus / annotated bindings are not seen by reaching_assignments: fall back to all bindings
+            if not live:
+                vals = [(v, enclosing_stmt(v)) for v in sc.values(e.id)]
+            for v, st in vals:
+                r = self.is_alias(v, sc, cached_call, cached_prop, st, depth - 1)
+                if r:
+                    return r
+        return None
 
 
 def r19f(ctx):
     rule = "R19f"
-    cached = {}
+    al = Aliases(ctx)
+    cached_call, cached_prop = {}, {}
     for ref, fn in ctx.model.all_functions():
         decos = common.decorators(fn)
-        if any(d in CACHE_DECOS for d in decos) and _mutable_return(fn):
-            cached.setdefault(fn.name, []).append((ref, "cached_property" in decos))
-    ctx.floor(rule, "cached methods with mutable results", len(cached), 6)
+        if any(d in CACHE_DECOS for d in decos) and al.mutable_result(fn):
+            (cached_prop if "cached_property" in decos else cached_call).setdefault(fn.name, []).append(ref)
+    ctx.floor(rule, "cached methods with mutable results", len(cached_call) + len(cached_prop), 6)
     n_sites = 0
     for ref, fn in ctx.model.all_functions():
         if getattr(fn, "_fn", None) is not None:
             continue
-        for a in walk_fn(fn):
-            if not (isinstance(a, ast.Assign) and len(a.targets) == 1 and isinstance(a.targets[0], ast.Name)):
-                continue
-            v = a.value
+        sc = al.scope(fn)
+        uses = {}
+        for n in walk_fn(fn, nested=True):
             src = None
-            if isinstance(v, ast.Call) and isinstance(v.func, ast.Attribute) and v.func.attr in cached \
-                    and not any(p for _, p in cached[v.func.attr]):
-                src = v.func.attr
-            elif isinstance(v, ast.Attribute) and v.attr in cached and any(p for _, p in cached[v.attr]):
-                src = v.attr
-            if src is None:
-                continue
-            name = a.targets[0].id
+            if isinstance(n, ast.Call) and isinstance(n.func, ast.Attribute) and n.func.attr in cached_call:
+                src = n.func.attr
+            elif isinstance(n, ast.Attribute) and n.attr in cached_prop and isinstance(n.ctx, ast.Load) and \
+                    not (isinstance(getattr(n, "_parent", None), ast.Call) and n._parent.func is n):
+                src = n.attr
+            if src:
+                uses.setdefault(src, []).append(n)
+        if not uses:
+            continue
+        bad = {}
+        for target, node, how in al.mutations(fn):
+            root = al._root(target)
+            st = enclosing_stmt(node)
+            inner = enclosing(node, FuncNode)
+            s2 = al.scope(inner) if inner is not None and inner is not fn else sc
+            src = al.is_alias(root, s2, cached_call, cached_prop, st)
+            if src:
+                bad.setdefault(src, []).append((node, how))
+        for src, nodes in sorted(uses.items()):
             n_sites += 1
-            scope = enclosing(a, FuncNode) or fn
-            bad = None
-            for m in ast.walk(scope):
-                if getattr(m, "lineno", 0) <= a.lineno:
-                    continue
-                if isinstance(m, ast.Call) and isinstance(m.func, ast.Attribute) and isinstance(m.func.value, ast.Name) \
-                        and m.func.value.id == name and m.func.attr in MUTATORS:
-                    bad = m
-                if isinstance(m, (ast.Assign, ast.AugAssign)):
-                    ts = m.targets if isinstance(m, ast.Assign) else [m.target]
-                    for t in ts:
-                        if isinstance(t, ast.Subscript) and isinstance(t.value, ast.Name) and t.value.id == name:
-                            bad = m
-                        if isinstance(m, ast.AugAssign) and isinstance(t, ast.Name) and t.id == name:
-                            bad = m
-                if isinstance(m, ast.Assign) and any(isinstance(t, ast.Name) and t.id == name for t in m.targets):
-                    break  # re-bound
-            ctx.check(rule, a, bad is None, f"{ref.split(':')[1]}: value of cached `{src}` only read",
-                      f"`{name}` holds the object handed out by the cache of `{src}`; `{short(bad, 60) if bad is not None else ''}` "
-                      "mutates it, so every later caller sees the modified value", fn=ref, key=f"{name} <- {src}")
+            b = bad.get(src, [])
+            ctx.check(rule, nodes[0], not b, f"{ref.split(':')[1]}: value of cached `{src}` only read",
+                      f"the object handed out by the cache of `{src}` is mutated in place by `{short(b[0][0], 60) if b else ''}` "
+                      f"({b[0][1] if b else ''}): every later caller sees the modified value", fn=ref, key=f"{ref} <- {src}")
     ctx.floor(rule, "uses of cached mutable values examined", n_sites, 5)
-    # the derivation layer hands out immutable sympy objects
-    for mod in ("groundstate", "intermediate_states", "secular_matrix", "properties"):
-        for q, fn in ctx.model.module(mod).functions.items():
-            if any(d in CACHE_DECOS for d in common.decorators(fn)):
-                ctx.check(rule, fn, not _mutable_return(fn), f"{q}: cached result is an immutable sympy object",
-                          f"{q} caches and returns a mutable container", fn=f"{mod}:{q}", key=f"{q} immutable")
-
 
 
 def run(ctx):
@@ -1496,8 +1938,8 @@ def run(ctx):
     if ctx.want("R19a"):
         r19a_keys(ctx)
         r19a_sets(ctx)
-    if ctx.want("R19b"):
-        r19b(ctx)
+    if ctx.want("R19b") or ctx.want("R19f"):
+        r19b(ctx, "quick")
     if ctx.want("R08d"):
         c08.r08d(ctx)
     if ctx.want("R19f"):
@@ -1505,5 +1947,5 @@ def run(ctx):
 
 
 def run_thorough(ctx):
-    if ctx.want("R19b"):
+    if ctx.want("R19b") or ctx.want("R19f"):
         r19b(ctx, "thorough")
